@@ -186,21 +186,28 @@ harness!(c14_q_traces_text_kinds, [traces_case::<0, false>(), traces_case::<1, f
 harness!(captured c14_q_traces_captured_kinds, [traces_case::<4, false>(), traces_case::<5, false>()]);
 harness!(c14_w_traces_span_text, [traces_case::<1, true>()]);
 
-// metrics, metric kind as text: aggregation and extent symbolic in every arm
-harness!(c14_q_metrics_text_missing_i64_text, [metrics_case::<2, 0, false>(), metrics_case::<2, 1, false>(), metrics_case::<2, 5, false>()]);
-harness!(c14_q_metrics_text_sequences, [metrics_case::<2, 3, false>(), metrics_case::<2, 4, false>()]);
-harness!(c14_t_metrics_text_f64_bool, [metrics_case::<2, 2, false>(), metrics_case::<2, 6, false>()]);
+// metrics, metric kind as text: aggregation and extent symbolic (one value shape per harness:
+// an arm costs 130-330 s, bundling does not pay here)
+harness!(c14_q_metrics_text_missing, [metrics_case::<2, 0, false>()]);
+harness!(c14_q_metrics_text_i64, [metrics_case::<2, 1, false>()]);
+harness!(c14_t_metrics_text_f64, [metrics_case::<2, 2, false>()]);
+harness!(c14_t_metrics_text_seq_i64, [metrics_case::<2, 3, false>()]);
+harness!(c14_q_metrics_text_seq_f64, [metrics_case::<2, 4, false>()]);
+harness!(c14_q_metrics_text_textvalue, [metrics_case::<2, 5, false>()]);
+harness!(c14_t_metrics_text_boolvalue, [metrics_case::<2, 6, false>()]);
 // metrics, metric kind as captured `emit::Kind`
-harness!(captured c14_q_metrics_captured_f64_seq_i64, [metrics_case::<5, 2, false>(), metrics_case::<5, 3, false>()]);
-harness!(captured c14_t_metrics_captured_missing_i64_text, [metrics_case::<5, 0, false>(), metrics_case::<5, 1, false>(), metrics_case::<5, 5, false>()]);
-harness!(captured c14_t_metrics_captured_seq_f64_bool, [metrics_case::<5, 4, false>(), metrics_case::<5, 6, false>()]);
+harness!(captured c14_t_metrics_captured_missing, [metrics_case::<5, 0, false>()]);
+harness!(captured c14_t_metrics_captured_i64, [metrics_case::<5, 1, false>()]);
+harness!(captured c14_t_metrics_captured_f64, [metrics_case::<5, 2, false>()]);
+harness!(captured c14_q_metrics_captured_seq_i64, [metrics_case::<5, 3, false>()]);
+harness!(captured c14_t_metrics_captured_seq_f64, [metrics_case::<5, 4, false>()]);
+harness!(captured c14_t_metrics_captured_textvalue, [metrics_case::<5, 5, false>()]);
+harness!(captured c14_t_metrics_captured_boolvalue, [metrics_case::<5, 6, false>()]);
 // metrics, other kinds (declined whatever the value)
 harness!(c14_q_metrics_other_kinds_i64, [metrics_case::<0, 1, false>(), metrics_case::<1, 1, false>(), metrics_case::<3, 1, false>()]);
-harness!(captured c14_q_metrics_span_captured_i64, [metrics_case::<4, 1, false>()]);
-harness!(c14_t_metrics_other_kinds_seq_text_missing, [
-    metrics_case::<0, 3, false>(), metrics_case::<1, 3, false>(), metrics_case::<3, 3, false>(),
-    metrics_case::<0, 5, false>(), metrics_case::<1, 0, false>(), metrics_case::<3, 2, false>(),
-]);
+harness!(captured c14_t_metrics_span_captured_i64, [metrics_case::<4, 1, false>()]);
+harness!(c14_t_metrics_other_kinds_seq_text, [metrics_case::<0, 3, false>(), metrics_case::<1, 5, false>(), metrics_case::<3, 4, false>()]);
+harness!(c14_t_metrics_other_kinds_missing_f64_bool, [metrics_case::<0, 0, false>(), metrics_case::<1, 2, false>(), metrics_case::<3, 6, false>()]);
 harness!(c14_w_metrics_text_textvalue, [metrics_case::<2, 5, true>()]);
 
 // logs: the encoder never looks at kind or value (both may stay symbolic in shape here)
